@@ -19,7 +19,7 @@ func init() {
 	fw.Register(&fw.Property{
 		ID:    "C19",
 		Level: "exploration",
-		Rule: "case = one derived frame with >=1 row (string columns not entirely null) written by ToSQL under a random dialect (no escape, \", `, arbitrary rune; ? or $n placeholders; table names with spaces) into a recording in-memory database/sql driver: " +
+		Rule: "case = one derived frame with >=1 row (string columns not entirely null) written by ToSQL under a random dialect (no escape, \", `, arbitrary rune; ? or $n placeholders; table and column names with spaces and % signs) into a recording in-memory database/sql driver: " +
 			"the event log must hold exactly one INSERT per row in frame order with the exact statement text and the row's values as arguments (null strings as NULL); the stored table read back by ReadSQL must reproduce the frame (enums as strings); " +
 			"plus independently generated result sets (leading NULL runs in text/float columns, []byte text, Int64ToBool / StringToFloat coercions, Precision) read by ReadSQL and compared with the denoted frame; " +
 			"evaluation = one ToSQL event log, one round trip or one ReadSQL result; non-trivial = frame with non-identity index and a null, or result set with a leading NULL; distinct by (statements+args) / result set",
@@ -45,7 +45,7 @@ func runC19(c *fw.Case) {
 func c19Write(c *fw.Case) {
 	rng := c.Rng
 	rows := 1 + rng.Intn(40)
-	o := model.GenOpts{Rows: rows, MinCols: 1, MaxCols: 5, NoCR: false, ID: rng.Intn(2) == 0, Names: []string{"a", "b", "c", "COL1", "x y", "é", "n1", "Sum"}, IDName: "rowid"}
+	o := model.GenOpts{Rows: rows, MinCols: 1, MaxCols: 5, NoCR: false, ID: rng.Intn(2) == 0, Names: []string{"a", "b", "c", "COL1", "x y", "é", "n1", "Sum", "growth%", "%d", "a%sb", "100%%", "%!d(MISSING)"}, IDName: "rowid"}
 	if c.No%16 == 6 {
 		// wide frames: placeholder numbers with two digits
 		o.MinCols, o.MaxCols = 10, 14
@@ -88,7 +88,7 @@ func c19Write(c *fw.Case) {
 		esc = []rune{'\'', '|', '¤', '«'}[rng.Intn(4)]
 	}
 	incr := rng.Intn(2) == 0
-	table := []string{"t", "test", "my table", "Tab_1", "schema.tab"}[rng.Intn(5)]
+	table := []string{"t", "test", "my table", "Tab_1", "schema.tab", "t%d", "50%", "%v%s"}[rng.Intn(8)]
 	var fns []qsql.ConfigFunc
 	fns = append(fns, qsql.Table(table))
 	preset := ""
@@ -217,6 +217,10 @@ func c19Write(c *fw.Case) {
 		tbl.Cols[i] = memsql.SplitIdent(tbl.Cols[i], esc)
 	}
 	var back qframe.QFrame
+	db.TextAsBytes = rng.Intn(2) == 0
+	if db.TextAsBytes {
+		c.Count("readbacks_with_text_as_reused_bytes", 1)
+	}
 	if !c.GuardFail("readsql", "ReadSQL after ToSQL", func() { back = qframe.ReadSQL(tx, qsql.Query("SELECT * FROM "+wrap(table))) }) {
 		return
 	}
@@ -355,6 +359,10 @@ func c19Read(c *fw.Case) {
 	})
 	db := memsql.New()
 	db.Result = t
+	db.TextAsBytes = rng.Intn(2) == 0
+	if db.TextAsBytes {
+		c.Count("result_sets_with_text_as_reused_bytes", 1)
+	}
 	sdb := db.Open()
 	defer sdb.Close()
 	tx, err := sdb.Begin()
